@@ -144,6 +144,10 @@ def run(chk: Check):
         info[tid] = (site, I, errs, rdm)
         chk.sample({"case": [kind, pk, norb, nu, nd, nchol], "h1u": I["json"]["h1u"], "chol": I["json"]["chol"],
                     "residuals_over_dt": dict(zip(map(str, DTS), errs))}, limit=6)
+    # the "set to zero when it is not a number or leaves the documented window" clause on exact prescribed inputs:
+    # every row of Weights.tla's one-step table realised in propagate (thresholds hit exactly and one ulp beside)
+    from .c09 import rule_replay
+    rule_replay(chk)
     verdicts = ladder.judge(chk, traces, "dt")
     for tid, v in verdicts.items():
         site, I, errs, rdm = info[tid]
